@@ -211,6 +211,25 @@ Theorem C17_beyond_last_knot_is_zero : forall (A : Arith) (F : OField A) (t : @t
   C17_Beyond.some_beyond (dims t) xs -> grid_spec t xs = zero.
 Proof. intros A F t xs H. exact (C17_Beyond.grid_spec_beyond_last_knot F t xs H). Qed.
 
+(* ... put together: what the check evaluates on grids of 2^31 and more points. For a huge grid G and a small grid S of the same table,
+   an entry of G whose grid point has the coordinates of a grid point of S equals that entry of S, and an entry of G with some
+   coordinate beyond the last knot is zero — so G's result is S's result re-indexed and nothing else. *)
+Theorem C17_huge_grid_is_small_grid_reindexed : forall (A : Arith) (F : OField A) (t : @table A) (G S : list (list (T A))) (s : Z)
+  (aG aS : @ndsparse A),
+  Forall wfd (dims t) -> RM (dims t) s ->
+  Forall (fun xs : list (T A) => xs <> []) G -> Forall (fun xs : list (T A) => xs <> []) S ->
+  grideval t G = GOk aG -> grideval t S = GOk aS ->
+  (forall g h, grid_in g S -> grid_in h G -> grid_point G h = grid_point S g -> nd_get aG h = nd_get aS g) /\
+  (forall h, grid_in h G -> C17_Beyond.some_beyond (dims t) (grid_point G h) -> nd_get aG h = zero).
+Proof.
+  intros A F t G S s aG aS Hwf HRM HG HS EG ES.
+  destruct (C17_grideval_spec F t G s aG Hwf HRM HG EG) as [_ [SG _]].
+  destruct (C17_grideval_spec F t S s aS Hwf HRM HS ES) as [_ [SS _]].
+  split.
+  - intros g h Hg Hh E. rewrite (SG h Hh), (SS g Hg), E. reflexivity.
+  - intros h Hh Hb. rewrite (SG h Hh). exact (C17_beyond_last_knot_is_zero A F t _ Hb).
+Qed.
+
 Example C17_beyond_example :       (* abscissa 9 in dimension 0 (knots 0..7), any abscissa in dimension 1 *)
   C17_Beyond.some_beyond (dims ex_tab) [qz17 9; Q2Qc (3 # 2)] /\ grid_spec ex_tab [qz17 9; Q2Qc (3 # 2)] = Q2Qc 0.
 Proof.
@@ -373,6 +392,7 @@ Print Assumptions C17_bspline_is_cox_de_boor.
 Print Assumptions C17_basis_is_spec_basis.
 Print Assumptions C17_basis_unchanged_on_strict_knots.
 Print Assumptions C17_beyond_last_knot_is_zero.
+Print Assumptions C17_huge_grid_is_small_grid_reindexed.
 Print Assumptions C17_beyond_example.
 Print Assumptions C17_hypotheses_satisfiable.
 Print Assumptions C17_slice_hypotheses_satisfiable.
